@@ -1,8 +1,8 @@
 #!/verif/.venv/bin/python
 # Replay of a solver counterexample against the unmodified code (no shims).
-# property=C09 kernel=atomic label=atomic:eom_on#0
+# property=C09 kernel=atomic label=atomic:delay_rest#1
 import sys
 sys.path[:0] = ['/repo' + "/pulser-core", '/repo' + "/pulser-simulation", "/verif"]
 from symx.replay import replay
-sys.exit(replay(check='checks.c09', kernel='atomic', shape={'device': 'virt_maxseq', 'prefix': 'p1', 'ops': ['eom_on']},
-                assignment={'pd0/k': 982, 'pd1/k': 2, 'buf#1.start': 0, 'buf#1.end': 0, 'buf#2.start': 0, 'buf#2.end': 1}, label='atomic:eom_on#0'))
+sys.exit(replay(check='checks.c09', kernel='atomic', shape={'device': 'virt_maxseq', 'prefix': 'p1', 'ops': ['eom_on', 'delay_rest']},
+                assignment={'pd0/k': 982, 'pd1/k': 2, 'buf#1.start': 0, 'buf#1.end': 0, 'buf#2.start': 0, 'buf#2.end': 1, 'dl1': 7, 'buf#9.start': 0, 'buf#9.end': 10, 'buf#10.start': 0, 'buf#10.end': 11}, label='atomic:delay_rest#1'))
